@@ -47,6 +47,18 @@ CHECKS={
  "C12": dict(tech="proptest-generated schedules driving real OS threads (one writer, 1-4 readers per version) with per-version precomputed answers; invariant over the history of reader results + liveness watchdog", engine="threads",
    text="Exploration: 1k/20k seeded schedules over workspaces of 13-51 files whose texts embed the version; readers loop over ~50 queries on their snapshot and may stop only on Cancelled or after apply_change returned; every result must be Cancelled or exactly the precomputed answer for the snapshot's own (version, package graph) state; content changes and graph-only changes are interleaved; apply_change must return (45 s watchdog, confirmed by replay); a snapshot taken afterwards answers for the new state.",
    note="The OS owns the scheduler: rare interleavings stay unexplored; the causal structure of the oracle makes swallowed cancellation, retry-on-cancel and leaked snapshots fail deterministically.", ref="DESIGN.md §5 C12"),
+ "C15": dict(tech="proptest-generated LSP message sequences (valid and invalid parameters by rule) against the real binary; invariant over the history (alive, one response per id) + reference model of the document store with allowed-outcome sets", engine="lsp",
+   text="Exploration: 3k/60k sequences of 5-40 messages (opens, changes with out-of-range / reversed / mid-surrogate / huge positions and further changes after an invalid one, closes, saves, watched-file events, non-file URIs, all 11 request kinds) against the real `glas --stdio`; the process must stay alive, answer every id exactly once, end with status 0, and every document's text (via glas/syntaxTree) must be one the model allows - never an edit applied elsewhere.",
+   note="A request outside the document may be answered with an error; once a document's state is ambiguous and changes go on, it is untracked until reopened (sound, weaker).", ref="DESIGN.md §5 C15"),
+ "C16": dict(tech="proptest-generated races (request batches vs edit bursts, stream-chosen chunking and pauses) against the real binary; per-version differential oracle (in-process answers) + convergence and liveness invariants", engine="lsp",
+   text="Exploration: 240/5k races; a writer thread pushes the whole stream without waiting; every request must be answered exactly once within 30 s with the in-process answer of exactly the version that was current when it was written (or a cancellation/error); afterwards the server's text and its last published diagnostics must be those of the client's final text.",
+   note="Timing is owned by the OS; line-shifting edits are excluded by construction because of known finding C16-F1 (live document store vs snapshot), its witness is replayed.", ref="DESIGN.md §5 C16"),
+ "C17": dict(tech="proptest-generated project trees on disk (registry, path, indirect and diamond dependencies, nested and test modules, free-standing file, opening orders) against the real binary; reference-model oracle (the scope-aware generator's module/package resolution)", engine="lsp",
+   text="Exploration: 400/10k trees; up to 40 definition requests per tree on uses whose declaration the generator knows must land in the declaring file at the declaration (URIs normalised); prepareRename must refuse build/packages symbols and accept local ones; an indirect dependency's module must not resolve; the free-standing file must get answers.",
+   note="No `gleam` executable on PATH; documents are opened before they are queried (disk text == opened text).", ref="DESIGN.md §5 C17"),
+ "C19": dict(tech="exhaustive enumeration (small documents x highlight lists x tags) through the hooked encoder + proptest-generated programs through ide highlighting and through the real server; round-trip oracle (independent LSP decoder + UTF-16 client model) and reference highlight set", engine="inproc",
+   text="Exploration: ~700k/10M encoded lists enumerated exhaustively; real highlight output (whole file and sub-ranges) of 1.5k/40k generated/corpus workspaces; range answers must contain everything inside the range and nothing outside the whole-file answer; for generated workspaces the tagged set must be exactly the function uses and constructor uses/definitions (+ optional members); 160/4k programs through semanticTokens/full and /range of the real server.",
+   note="Function-typed locals are optional members of the highlight set (the generator does not track types).", ref="DESIGN.md §5 C19"),
 }
 
 NOT_YET={}
